@@ -658,6 +658,21 @@ class SimulatedBroker(Broker):
         """
         self.current_dt = dt
 
+        # Check every price mark before any position is modified, so
+        # that an update refused because of a negative price leaves
+        # all portfolios untouched
+        for portfolio in self.portfolios:
+            for asset in self.portfolios[portfolio].pos_handler.positions:
+                mid_price = self.data_handler.get_asset_latest_mid_price(
+                    dt, asset
+                )
+                if mid_price < 0.0:
+                    raise ValueError(
+                        'Current trade price of %s is negative for '
+                        'asset %s. Cannot update the positions of '
+                        'portfolio "%s".' % (mid_price, asset, portfolio)
+                    )
+
         # Update portfolio asset values
         for portfolio in self.portfolios:
             for asset in self.portfolios[portfolio].pos_handler.positions:
